@@ -429,8 +429,10 @@ class Interp(ExprMixin, StmtMixin):
         eff_before = st.effects
         if c.effects is not None:
             st.effects = L.fresh("eff")
+        # calling a @contextmanager function only creates the manager: nothing of its body runs here
+        callee_is_cm = any(isinstance(d, ast.Name) and d.id == "contextmanager" for d in fnode.decorator_list)
         # exceptional behaviour
-        for exc, clause in c.raises.items():
+        for exc, clause in ([] if callee_is_cm else c.raises.items()):
             cond = L.fresh("raises_" + exc.replace(".", "_"), L.B)
             if st.qctx:
                 # under a quantifier we cannot fork: the caller must show the raise condition is false
